@@ -240,7 +240,19 @@ def prove_eq(lhs, rhs, hyps, opts):
                     ats = [a_ for a_ in tm.atoms([g]) if a_.op == "v"]
                     if ats:
                         ctrl = tm.add(g, ats[0])  # negative control: goal shifted by a free atom must not be zero
-                st, info = tower.is_zero(g, budget_s=opts.get("ring_budget", 60.0), control=ctrl)
+                hy_case = hyps + case
+
+                def oracle(t, hy_case=hy_case):
+                    # sign of a rational function under the hypotheses (used for sqrt(r^2) = |r|)
+                    v = backends.prove(hy_case, tm.le(tm.ZERO, t), rlimit=2000000, use_cvc5=False)
+                    if v.status == "proved":
+                        return 1
+                    v = backends.prove(hy_case, tm.le(t, tm.ZERO), rlimit=2000000, use_cvc5=False)
+                    if v.status == "proved":
+                        return -1
+                    return None
+
+                st, info = tower.is_zero(g, budget_s=opts.get("ring_budget", 60.0), control=ctrl, sign_oracle=oracle)
                 if st == "unsound":
                     return "error", "ring", "negative control normalised to zero: back end unsound"
                 if st == "gaveup":
@@ -573,6 +585,28 @@ def run_group(prop, name, tier, seed):
     importlib.import_module("vt.props." + prop)
     spec = GROUPS[(prop, name)]
     t0 = time.time()
+    # contracts may replace module-level names of the shadow modules by callee summaries (sidecar monkeypatching);
+    # worker processes are reused, so the module namespaces are restored after every group
+    import sys as _sys
+
+    saved = {k: dict(m.__dict__) for k, m in list(_sys.modules.items()) if k.startswith("tf_pwa") and m is not None and hasattr(m, "__dict__")}
+    try:
+        return _run_group_inner(spec, prop, name, tier, seed, t0)
+    finally:
+        for k, d in saved.items():
+            m = _sys.modules.get(k)
+            if m is None:
+                continue
+            cur = m.__dict__
+            for kk in list(cur):
+                if kk not in d:
+                    del cur[kk]
+            for kk, vv in d.items():
+                if cur.get(kk, None) is not vv:
+                    cur[kk] = vv
+
+
+def _run_group_inner(spec, prop, name, tier, seed, t0):
     try:
         if spec.kind == "P" and spec.env == "shim" and not spec.opts.get("plain"):
             res, meta = run_sym_group(spec, tier, seed), None
